@@ -737,6 +737,76 @@ func syncOvertake(m *meta, rng *rand.Rand, round int) {
 	m.count("sync_overtake_rounds")
 }
 
+// syncBehindStalled (C04, deterministic): SetAsync(7,2) is accepted BEHIND a slot that another producer reserved but
+// has not published; then Sync (or Clear) is called with the drain token free. The fence may help draining, but the
+// drain stops at the unpublished slot: Sync may only return once the accepted write is visible, Clear only once it
+// has been removed (so it may not reappear when the stalled producer finally publishes).
+func syncBehindStalled(m *meta, rng *rand.Rand, round int) {
+	conf := kioshun.Config{ShardCount: 1, EvictionPolicy: pick(rng, []kioshun.EvictionPolicy{kioshun.LRU, kioshun.SieveTinyLFU, kioshun.FIFO, kioshun.LFU}), WriteBufferSize: pick(rng, []int{4, 8, 64}), WriteBatchSize: pick(rng, []int{1, 2, 64})}
+	useClear := rng.Intn(3) == 0
+	ctx := fmt.Sprintf("sync behind stalled producer round %d clear=%v cfg %+v", round, useClear, conf)
+	c, err := kioshun.New[int, int](conf)
+	must(err)
+	watch(ctx)
+	defer unwatch()
+	kioshun.VerifSchedReset(true, 300*time.Millisecond)
+	defer kioshun.VerifSchedReset(false, 0)
+	kioshun.VerifSchedSpawn(1, func() { c.Set(900, 1, kioshun.NoExpiration) })
+	if p := stepUntil(1, 332); p != 332 {
+		m.count("sync_behind_setup_failed")
+		return
+	}
+	kioshun.VerifSchedSpawn(2, func() { c.SetAsync(901, 1, kioshun.NoExpiration) })
+	if p := stepUntil(2, 104); p != 104 {
+		m.count("sync_behind_setup_failed")
+		stepUntil(1, -100)
+		stepUntil(2, -100)
+		return
+	}
+	stepUntil(1, -100) // the token is free again; thread 2 still holds an unpublished reservation
+	if e := c.SetAsync(7, 2, kioshun.NoExpiration); e != nil {
+		m.violate("C04", ctx+": SetAsync failed", ctx)
+	}
+	kioshun.VerifSchedSpawn(3, func() {
+		if useClear {
+			c.Clear()
+		} else {
+			c.Sync()
+		}
+	})
+	p3 := stepUntil(3, -100)
+	if p3 == kioshun.VerifStepDone {
+		// the fence returned while the reservation in front of the accepted write is still unpublished
+		v, ok := c.Get(7)
+		if !useClear && (!ok || v != 2) {
+			for _, p := range []string{"C04", "C01"} {
+				m.violate(p, fmt.Sprintf("%s: SetAsync(7,2) returned nil (queued behind a reserved, unpublished slot); Sync was then called and returned; Get(7)=(%d,%v): when Sync returns every SetAsync that returned before it is visible", ctx, v, ok), ctx)
+			}
+		}
+	}
+	stepUntil(2, -100) // the stalled producer publishes
+	for i := 0; i < 20 && p3 != kioshun.VerifStepDone; i++ {
+		p3 = stepUntil(3, -100)
+	}
+	kioshun.VerifSchedReset(false, 0)
+	if p3 != kioshun.VerifStepDone {
+		m.violate("C07", fmt.Sprintf("%s: the fence did not return after the stalled producer published (step result %d)", ctx, p3), ctx)
+	}
+	time.Sleep(2 * time.Millisecond)
+	c.Sync()
+	v, ok := c.Get(7)
+	if useClear && ok {
+		for _, p := range []string{"C04", "C01"} {
+			m.violate(p, fmt.Sprintf("%s: SetAsync(7,2) returned nil before Clear was called; after Clear returned (and the stalled producer published) Get(7)=(%d,true): Clear removes every write accepted before it", ctx, v), ctx)
+		}
+	}
+	if !useClear && (!ok || v != 2) {
+		m.violate("C04", fmt.Sprintf("%s: after Sync the accepted SetAsync(7,2) is not visible: Get(7)=(%d,%v)", ctx, v, ok), ctx)
+	}
+	c.Close()
+	m.count("sync_behind_stalled_rounds")
+}
+
 // newAdopted builds a one-shard cache whose write worker is schedulable thread 1000, parked before its select.
 func newAdopted(conf kioshun.Config) (*kioshun.Cache[int, int], bool) {
 	kioshun.VerifSchedReset(true, 300*time.Millisecond)
@@ -2364,6 +2434,7 @@ func streamConc(o opts) {
 			expiryRace(m, rng, r)
 			stalledProducer(m, rng, r)
 			syncOvertake(m, rng, r)
+			syncBehindStalled(m, rng, r)
 			syncFence(m, rng, r)
 			inlineBehindDequeued(m, rng, r)
 			closeNotify(m, rng, r)
